@@ -292,6 +292,12 @@ func (a *AnySchema) checkAndConvert(data any) (any, error) {
 			if err != nil {
 				return nil, ConstraintErrorAddPathSegment(err, fmt.Sprintf("[%v]", key))
 			}
+			if _, duplicate := result[key]; duplicate {
+				// Two raw keys (e.g. int32(1) and int64(1)) denote the same key.
+				return nil, ConstraintErrorAddPathSegment(&ConstraintError{
+					Message: fmt.Sprintf("Duplicate key %v after conversion", key),
+				}, fmt.Sprintf("{%v}", k))
+			}
 			result[key] = value
 		}
 		return result, nil
